@@ -106,7 +106,9 @@ func (state *inflate) setupDynamicHeader() error {
 		return errInvalidBlock
 	}
 
-	state.distTable.genForDists(ctx.litAndDistHuff[litLen:distLen+litLen], ctx.distCount[:], distLen)
+	if !state.distTable.genForDists(ctx.litAndDistHuff[litLen:distLen+litLen], ctx.distCount[:], distLen) {
+		return errInvalidBlock
+	}
 	err = ctx.setAndExpandLitLenHuffCode()
 	if err != nil {
 		return err
@@ -521,7 +523,9 @@ const (
 	distSymLenOffset   = smallShortCodeLenOffset
 )
 
-func (t *smallHuffCodeTable) genForDists(codes []huffCode, count []uint16, maxSymbol uint32) {
+// genForDists reports false for a (necessarily incomplete) code whose long codes need more
+// sub-table space than the table has; a complete distance code never needs more than 48 entries.
+func (t *smallHuffCodeTable) genForDists(codes []huffCode, count []uint16, maxSymbol uint32) bool {
 	var countTotal, countTotalTmp [17]uint32
 
 	for i := 2; i < 17; i++ {
@@ -535,7 +539,7 @@ func (t *smallHuffCodeTable) genForDists(codes []huffCode, count []uint16, maxSy
 		for i := range t.ShortCodeLookup {
 			t.ShortCodeLookup[i] = 0
 		}
-		return
+		return true
 	}
 	var codeList [distLen + 2]uint32 /* The +2 is for the extra codes in the static header */
 	for i, code := range codes {
@@ -599,6 +603,9 @@ func (t *smallHuffCodeTable) genForDists(codes []huffCode, count []uint16, maxSy
 				tempCodeLength++
 			}
 		}
+		if longCodeLookupLength+(1<<(maxLength-distLookupBits)) > uint32(len(t.LongCodeLookup)) {
+			return false
+		}
 		for x := longCodeLookupLength; x < longCodeLookupLength+(1<<(maxLength-distLookupBits)); x++ {
 			t.LongCodeLookup[x] = 0
 		}
@@ -623,4 +630,5 @@ func (t *smallHuffCodeTable) genForDists(codes []huffCode, count []uint16, maxSy
 			(maxLength << smallShortCodeLenOffset) | smallFlagBit)
 		longCodeLookupLength += 1 << (maxLength - distLookupBits)
 	}
+	return true
 }
